@@ -22,6 +22,7 @@ func init() {
 			{Name: "ratio", Num: 8, Type: TDouble, Ext: []ExtV{Query("ratio", false)}},
 			{Name: "tags", Num: 9, Type: TString, Repeated: true, Ext: []ExtV{Query("tag", false)}},
 			{Name: "f32", Num: 10, Type: TFloat, Ext: []ExtV{Query("f32", false)}},
+			{Name: "limit", Num: 11, Type: TInt32, Optional: true, Ext: []ExtV{Query("limit", false)}},
 		}}
 		upd := M{Name: "UpdateReq", Fields: []F{
 			{Name: "item_id", Num: 1, Type: TString},
